@@ -1333,6 +1333,11 @@ class GeoboxTiles:
         else:
             assert tile_shape is not None
             self._tiles = roi_tiles(box.shape, tile_shape)
+            if self._tiles.base != box.shape:
+                # chunk tuples that do not add up to the GeoBox: tiles would lie outside of it
+                raise ValueError(
+                    f"Chunks add up to {self._tiles.base.shape}, GeoBox shape is {box.shape.shape}"
+                )
 
     @property
     def base(self) -> GeoBoxBase:
